@@ -57,9 +57,12 @@ Proof.
   { induction l as [|c r IH] using rev_ind; [reflexivity|]. rewrite map_app, rev_app_distr. cbn. exact IH. }
   destruct sr as [ph|[|]]; [|destruct x|]; cbn; first [apply D|apply D2].
 Qed.
-Lemma reads_ok_subdrops sid {Y} (l : list Y) h : reads_ok (rev (map (fun _ => ESubDrop sid) l) ++ h) <-> reads_ok h.
+Lemma reads_ok_sub_events sid x sr dr h : reads_ok (rev (sub_events sid x sr dr) ++ h) <-> reads_ok h.
 Proof.
-  induction l as [|c r IH] using rev_ind; [reflexivity|]. rewrite map_app, rev_app_distr. cbn. exact IH.
+  unfold sub_events. rewrite rev_app_distr, <- app_assoc.
+  assert (D : forall (l : list (State * aid)) h', reads_ok (rev (map (fun _ => ESubDrop sid) l) ++ h') <-> reads_ok h').
+  { induction l as [|c r IH] using rev_ind; intros h'; [reflexivity|]. rewrite map_app, rev_app_distr. cbn. apply IH. }
+  destruct sr as [ph|[|]]; [|destruct x as [[s a]|]|]; cbn; apply D.
 Qed.
 Lemma writes_dq_events x sr dr : writes (rev (dq_events (State := State) x sr dr)) = [].
 Proof.
@@ -69,8 +72,12 @@ Proof.
   { intros f Hf. induction l as [|c r IH]; [reflexivity|]. cbn. rewrite flat_map_app, IH. cbn. now rewrite Hf. }
   destruct sr as [ph|[|]]; [|destruct x|]; rewrite D by reflexivity; reflexivity.
 Qed.
-Lemma writes_subdrops sid {Y} (l : list Y) : writes (rev (map (fun _ => ESubDrop (State := State) sid) l)) = [].
-Proof. apply proj_subdrop. reflexivity. Qed.
+Lemma writes_sub_events sid x sr dr : writes (rev (sub_events (State := State) sid x sr dr)) = [].
+Proof.
+  unfold sub_events. rewrite rev_app_distr. unfold writes. rewrite flat_map_app.
+  rewrite (proj_subdrop ev_write sid dr) by reflexivity. rewrite app_nil_r.
+  destruct sr as [ph|[|]]; [|destruct x as [[s a]|]|]; reflexivity.
+Qed.
 
 Lemma dq_phase_state w x ph w1 sr : dq_phase w x ph = Some (w1, sr) -> inv_state w -> inv_state w1.
 Proof.
@@ -85,7 +92,7 @@ Proof.
   - destruct (send_phase c x ph) as [[[c' sr'] dr]|]; [|discriminate].
     intros H; injection H as <- <-. unfold inv_state, last_written.
     unfold emits, upd_metrics, set_chan, set_chans, set_hist, set_metrics; cbn [w_state w_hist].
-    rewrite writes_app, writes_subdrops, reads_ok_subdrops. auto.
+    rewrite writes_app, writes_sub_events, reads_ok_sub_events. auto.
   - intros H; injection H as <- <-. auto.
 Qed.
 
@@ -100,8 +107,9 @@ Ltac simp_state :=
     let A := fresh "I1" in let B := fresh "I2" in
     destruct I as [A B]; unfold last_written, writes in A end;
   unfold inv_state, last_written, writes; simp_world; unfold cb_events;
-  repeat first [ rewrite flat_map_app | rewrite (proj_cb ev_write) by reflexivity | rewrite reads_ok_app_cb ];
-  cbn [flat_map ev_write app reads_ok prev_state].
+  repeat (progress (repeat first [ rewrite flat_map_app | rewrite (proj_cb ev_write) by reflexivity
+                                 | rewrite reads_ok_app_cb ];
+                    cbn [flat_map ev_write app reads_ok prev_state])).
 
 Ltac split_goal_matches :=
   unfold dispatch_result;
